@@ -18,6 +18,7 @@ trap cleanup EXIT
 if [ -f "$M/demo_test.go" ]; then
   mkdir -p "$W/zzdemo"; cp "$M/demo_test.go" "$W/zzdemo/"
   RACE=""; grep -qi -- '-race' "$M/notes.md" 2>/dev/null && RACE="-race"
+  grep -q '^//go:build zzdemo' "$M/demo_test.go" && RACE="$RACE -tags zzdemo"
   if (cd "$W" && go test $RACE -count=1 ./zzdemo/ >/dev/null 2>&1); then echo "demo-clean: PASS"; else echo "demo-clean: FAIL (demonstration does not pass on the unchanged tree)"; fi
 fi
 if ! git -C "$W" apply "$M/patch.diff"; then echo "patch: DOES NOT APPLY"; exit 1; fi
